@@ -1595,6 +1595,67 @@ example : ∃ fuel' val t, t.length = 0 ∧ obsOfRef (Ref.runProgram 40 demoNest
     ∧ obsOfVM (VM.runText fuel' demoNestedTail VM.initSt).1 = some (.ok val t) :=
   lazy_instance 40 demoNestedTail (Or.inr demoNestedTail_in) (by decide) _ _ demoNestedTail_ref
 
+/-! ## Computed call heads -/
+
+/-- `(defn adder [a] (fn [b] (+ a b))) ((adder 1) 2)`: the callee is the value of a call -/
+def demoHead : List Expr :=
+  [.defn "adder" ["a"] none [.fn ["b"] none [.call (.sym "+") [.sym "a", .sym "b"]]],
+   .call (.call (.sym "adder") [.int 1]) [.int 2]]
+
+/-- `((cond (> 1 0) + -) 5 2)`: the callee is the value of a `cond` -/
+def demoHeadCond : List Expr :=
+  [.call (.cond [(.call (.sym ">") [.int 1, .int 0], .sym "+")] (.sym "-")) [.int 5, .int 2]]
+
+/-- `((+ 1 2) 4)`: the callee evaluates to a number — the script error of both sides -/
+def demoHeadErr : List Expr :=
+  [.call (.call (.sym "+") [.int 1, .int 2]) [.int 4]]
+
+theorem demoHead_in : FtList demoHead = true := by ft_mem2 demoHead
+theorem demoHeadCond_in : FtList demoHeadCond = true := by ft_mem2 demoHeadCond
+theorem demoHeadErr_in : FtList demoHeadErr = true := by ft_mem2 demoHeadErr
+
+set_option maxRecDepth 8000 in
+theorem demoHead_ref :
+    refVT (Ref.evalBegin 20 demoHead 0 { Ref.initSt with trace := [] }) = some (.int 3#64, 0) := by
+  ref_eval2 demoHead
+set_option maxRecDepth 8000 in
+theorem demoHeadCond_ref :
+    refVT (Ref.evalBegin 20 demoHeadCond 0 { Ref.initSt with trace := [] }) = some (.int 7#64, 0) := by
+  ref_eval2 demoHeadCond
+set_option maxRecDepth 8000 in
+theorem demoHeadErr_ref :
+    refClass (Ref.evalBegin 20 demoHeadErr 0 { Ref.initSt with trace := [] }) = some none := by
+  simp [demoHeadErr, Ref.evalBegin, Ref.eval, Ref.evalArgs, Ref.evalList, Ref.applyFn, Ref.lookup, Ref.lookupIn, Ref.initSt,
+    Ref.globalNames, coreBuiltins, refClass, List.lookup, prim, isFunction, allInts, intOfLit]
+
+/-- **Computed call heads**: in every position where the fragments allow a call, the callee may be any operand
+expression of the fragment (`Sim.Ff false ""`: a call, a `cond`, a `let`, …, not `fn`/`defn`) instead of a symbol:
+`CallExprInstr` evaluates it like an operand (`EvalCallExpression`: compiled when the instruction runs, a nested `Run`),
+then proceeds as for a call by name with the value found (`Sim.simF_callE`, `Sim.simF_callV`, `Sim.SimVia`); such a
+call is never compiled as a self tail call. Same statement as `compile_correct_on_F3`, for the fragments as they are now. -/
+theorem compile_correct_on_F2heads : CompileCorrectOn (fun p => FtList p = true ∨ FyList p = true) :=
+  compile_correct_on_F3lazy
+
+example : ∃ fuel' val t, t.length = 0 ∧ obsOfRef (Ref.runProgram 20 demoHead Ref.initSt).1 = some (.ok val t)
+    ∧ obsOfVM (VM.runText fuel' demoHead VM.initSt).1 = some (.ok val t) :=
+  lazy_instance 20 demoHead (Or.inl demoHead_in) (by decide) _ _ demoHead_ref
+example : ∃ fuel' val t, t.length = 0 ∧ obsOfRef (Ref.runProgram 20 demoHeadCond Ref.initSt).1 = some (.ok val t)
+    ∧ obsOfVM (VM.runText fuel' demoHeadCond VM.initSt).1 = some (.ok val t) :=
+  lazy_instance 20 demoHeadCond (Or.inl demoHeadCond_in) (by decide) _ _ demoHeadCond_ref
+example : ∃ fuel' t, obsOfRef (Ref.runProgram 20 demoHeadErr Ref.initSt).1 = some (.err t)
+    ∧ obsOfVM (VM.runText fuel' demoHeadErr VM.initSt).1 = some (.err t) := by
+  have h := demoHeadErr_ref
+  cases hres : Ref.evalBegin 20 demoHeadErr 0 { Ref.initSt with trace := [] } with
+  | err rs' =>
+    have ho : obsOfRef (Ref.runProgram 20 demoHeadErr Ref.initSt).1 = some (.err rs'.trace) := by
+      unfold Ref.runProgram; simp only [hres]; rfl
+    obtain ⟨f, hf⟩ := compile_correct_on_F2heads demoHeadErr (Or.inl demoHeadErr_in) (by decide) 20 _ ho
+    exact ⟨f, _, ho, hf⟩
+  | ok v rs' => rw [hres] at h; simp [refClass] at h
+  | timeout => rw [hres] at h; simp [refClass] at h
+  | brk l rs' => rw [hres] at h; simp [refClass] at h
+  | cont l rs' => rw [hres] at h; simp [refClass] at h
+
 /-- **C16's `LazySemantics` on the fragment**: the statement of `Props/C16.lean` (`C16.LazySemantics`, in that
 file's vocabulary) restricted to the programs of F3-lazy. -/
 theorem lazy_semantics_on_F3lazy (p : List Expr) (hp : FtList p = true ∨ FyList p = true) (hwf : Ref.wfList {} p = true)
@@ -1641,7 +1702,7 @@ i.e. using a `fn`/`defn` inside
 an operand of a call (compiled at run time), a self call in
 a directly compiled non-tail position, a self tail call or `break`/`continue` in a nested function that is not a
 `defn` statement of a function body (an anonymous `fn`, a `defn` inside a loop body or an operand), `substitute`,
-computed call heads, an empty `newScope`, or (together with calls or
+an empty `newScope`, or (together with calls or
 array literals) a binder that re-uses a builtin name. Held by the 3-way `eval` correspondence on
 every run, not by a theorem. -/
 def CompileCorrectOutsideProved : Prop := CompileCorrectOn (fun p => ¬ InProvedFragment p)
@@ -1677,6 +1738,8 @@ def CompileCorrectOutsideProved : Prop := CompileCorrectOn (fun p => ¬ InProved
    * nested functions — a `defn` that is a statement (or the last form) of a function body of F2c may itself have a
      body of F2c: self tail calls and loops with `break`/`continue` in nested functions, to any depth
      (`Sim.Fs`, `Sim.simF_defnZ`) — `compile_correct_on_F2c_nested`;
+   * computed call heads — the callee of a call may be any operand expression of the fragment
+     (`Sim.simF_callE`) — `compile_correct_on_F2heads`;
    * for the effect-free sub-fragment F0c with explicit fuel on both sides — `compile_correct_F0c`;
 2. the full `CompileCorrect` follows from its restriction to the remaining programs
    (`CompileCorrectOutsideProved`, the precise unproved remainder);
